@@ -23,8 +23,8 @@ Proof.
     rewrite (IH r ls' E). reflexivity.
 Qed.
 
-Theorem parse_ok_kids_flat_parsed : forall b ls, kids_of_block b = map cmd_node ls -> parse_ok b ->
-  flat_parsed (render_block b) ls.
+Theorem parse_ok_kids_flat_parsed_gen : forall b ls, kids_of_block b = map cmd_node ls -> parse_ok b ->
+  flat_parsed (render_block b) (filter nonempty_l ls).
 Proof.
   intros b ls Hk [p [kids [Hp Hm]]].
   destruct kids as [|k [|k2 kids]]; try discriminate Hm.
@@ -33,14 +33,70 @@ Proof.
   unfold tree_of_script in Hm. cbn [strip_eoi] in Hm. injection Hm as Hr Hx Hf.
   rewrite Hk in Hf.
   exists p, [], [k], r, x, kids0. split; [exact Hp|]. split; [cbn [map]; rewrite A; reflexivity|].
-  apply skel_of_strip, Hf.
+  apply skel_of_strip_gen, Hf.
+Qed.
+
+Theorem parse_ok_kids_flat_parsed : forall b ls, forallb nonempty_l ls = true ->
+  kids_of_block b = map cmd_node ls -> parse_ok b -> flat_parsed (render_block b) ls.
+Proof.
+  intros b ls Hn Hk P. rewrite <- (filter_ne_id ls Hn). apply parse_ok_kids_flat_parsed_gen; assumption.
+Qed.
+
+Lemma cmd_lines_ne : forall b ls, fragI_block b = true -> cmd_lines b = Some ls -> forallb nonempty_l ls = true.
+Proof.
+  fix IH 1. intros b ls Hf H. destruct b as [|s r]; cbn [cmd_lines] in H.
+  - injection H as <-. reflexivity.
+  - destruct s as [ind line|ws|ind|ind| | | ]; try discriminate H.
+    destruct (cmd_lines r) as [ls'|] eqn:E; [|discriminate H]. injection H as <-.
+    change (fragI_block (BCons (SCmd ind line) r)) with (wfp_ind ind && cmd_ok2 line && fragI_block r) in Hf.
+    apply andb_prop in Hf as [Hf Hr]. apply andb_prop in Hf as [_ Hc].
+    cbn [forallb]. rewrite (IH r ls' Hr E), andb_true_r.
+    unfold cmd_ok2 in Hc. apply andb_prop in Hc as [Hc _]. apply andb_prop in Hc as [Hc _].
+    apply andb_prop in Hc as [_ Hc]. destruct line; [discriminate Hc | reflexivity].
 Qed.
 
 Theorem indented_text_parsed : forall b ls, fragI_block b = true -> cmd_lines b = Some ls ->
   parse_from l_grammar L_EXP (render_block b) = PFuel \/ flat_parsed (render_block b) ls.
 Proof.
   intros b ls H Hc. destruct (parse_indented_from b H) as [F|P]; [left; exact F|right].
-  apply parse_ok_kids_flat_parsed; [apply cmd_lines_kids, Hc | exact P].
+  apply parse_ok_kids_flat_parsed; [exact (cmd_lines_ne b ls H Hc) | apply cmd_lines_kids, Hc | exact P].
+Qed.
+
+(** ... with BLANK LINES: [body_lines] lists every line of the block, a blank line as the empty text; the
+    parse gives the non-empty ones (exp_loop skips a CMD pair with empty text, and so does skel) *)
+Fixpoint body_lines (b : block) : option (list str) :=
+  match b with
+  | BNil => Some []
+  | BCons (SCmd _ line) r => option_map (cons line) (body_lines r)
+  | BCons (SBlank _) r => option_map (cons []) (body_lines r)
+  | BCons _ _ => None
+  end.
+
+Lemma body_lines_kids : forall b ls, body_lines b = Some ls -> kids_of_block b = map cmd_node ls.
+Proof.
+  fix IH 1. intros b ls H. destruct b as [|s r]; cbn [body_lines] in H.
+  - injection H as <-. reflexivity.
+  - destruct s as [ind line|ws|ind|ind| | | ]; try discriminate H;
+      (destruct (body_lines r) as [ls'|] eqn:E; [|discriminate H]); injection H as <-.
+    + change (kids_of_block (BCons (SCmd ind line) r)) with (tree_of_stmt (SCmd ind line) :: kids_of_block r).
+      rewrite (IH r ls' E). reflexivity.
+    + change (kids_of_block (BCons (SBlank ws) r)) with (tree_of_stmt (SBlank ws) :: kids_of_block r).
+      rewrite (IH r ls' E). reflexivity.
+Qed.
+
+Theorem indented_blank_text_parsed : forall b ls, fragI_block b = true -> body_lines b = Some ls ->
+  parse_from l_grammar L_EXP (render_block b) = PFuel \/ flat_parsed (render_block b) (filter nonempty_l ls).
+Proof.
+  intros b ls H Hc. destruct (parse_indented_from b H) as [F|P]; [left; exact F|right].
+  apply parse_ok_kids_flat_parsed_gen; [apply body_lines_kids, Hc | exact P].
+Qed.
+
+Theorem tab_ok_indented_blank : forall k b ls ft rt, fragI_block b = true -> body_lines b = Some ls ->
+  parse_from l_grammar L_EXP (render_block b) <> PFuel -> forallb ok_line (filter nonempty_l ls) = true ->
+  tab_ok ft rt -> tab_ok ((k, render_block b) :: ft) ((k, filter nonempty_l ls) :: rt).
+Proof.
+  intros k b ls ft rt H Hc Hn Hok Ht. apply tab_cons; [|exact Hok|exact Ht].
+  destruct (indented_blank_text_parsed b ls H Hc) as [F|P]; [contradiction | exact P].
 Qed.
 
 (** an entry of the function table whose body text is an indented flat text *)
